@@ -71,6 +71,25 @@ def run_case(kind, payload):
         if kind == "function_parse_setdefault":
             ir = cdd.function.parse.function(ast.parse(payload).body[0])
             return canon_ir(ir) + "\n" + to_code(cdd.class_.emit.class_(ir, emit_call=False, class_name="C"))
+        if kind == "routes_upsert":
+            # gen_routes + upsert_routes: a routes file that already holds some of the requested routes is completed with the missing ones
+            import tempfile
+
+            from cdd.compound.openapi.gen_routes import gen_routes, upsert_routes
+
+            cls, cols, first, then = payload
+            with tempfile.TemporaryDirectory() as td:
+                mp, rp = os.path.join(td, "models.py"), os.path.join(td, "routes.py")
+                with open(mp, "wt") as f:
+                    f.write("from sqlalchemy import Column, Integer, String\nfrom sqlalchemy.orm import declarative_base\n\nBase = declarative_base()\n\n\n"
+                            "class %s(Base):\n    \"\"\"A model.\"\"\"\n\n    __tablename__ = \"%s\"\n\n%s" % (cls, cls.lower(), cols))
+                outs = []
+                for crud in (first, then):
+                    routes, pk = gen_routes("app", mp, cls, crud, "/api/" + cls.lower())
+                    upsert_routes("app", routes, rp, "/api/" + cls.lower(), pk)
+                    with open(rp) as f:
+                        outs.append(f.read())
+            return outs[-1]
         if kind == "merge_all":
             mod = ast.parse(payload)
             cdd.shared.ast_utils.merge_assignment_lists(mod, "__all__")
@@ -141,6 +160,10 @@ def cases(seed, n):
             pool = ["Config", "config", "Model", "model", "Integer", "INTEGER", "run", "Run", "alpha", "beta", "Zeta"]
             a1, a2 = r.sample(pool, r.randint(2, 5)), r.sample(pool, r.randint(1, 4))
             out.append(("merge_all", "__all__ = %r\nx = 1\n__all__ = %r\n" % (a1, a2)))
+        if i % 5 == 2:
+            cols = '    id = Column(Integer, doc="the id", primary_key=True)\n    name = Column(String, doc="the name")\n'
+            first = r.choice(["C", "R", "D", "CR"])
+            out.append(("routes_upsert", (r.choice(["Config", "Item", "Dataset"]), cols, first, r.choice(["CRD", "RCD", "DRC"]))))
         if i % 10 == 7:
             ms = r.sample(['"alpha"', '"beta"', '"gamma"', '"delta"'], r.randint(2, 4))
             out.append(("function_parse_setdefault", 'def f(a: set = {%s}, b=("x", "y")):\n    """\n    S.\n\n    :param a: the set\n    :param b: t\n    """\n    return None\n' % ", ".join(ms)))
